@@ -136,7 +136,10 @@ UNIT = Unit("frame", ["base.rs", "tls.rs", "model.rs", "leaf.rs", "lemmas.rs"], 
                 ("C14,C04", "bytes", "ser(c.mv()) =~= seq![3u8, 0u8] + be16((size + 4) as u16)")], fuel=6),
     Fn(TPKT, "new", impl=r"Client<S>", mod="tpkt", props=["C13", "C14"],
        ensures=["r.rest() == transport.rest() && r.written() == transport.written() && r.tls() == transport.tls()"]),
-    Fn(TPKT, "write", impl=r"Client<S>", mod="tpkt", props=["C14"], fuel=4, **TPKT_WRITE),
+    # refusal-justification: a message is refused for its size only above 65531 bytes (65531 itself still fits the 16-bit length)
+    Fn(TPKT, "write", impl=r"Client<S>", mod="tpkt", props=["C14"], fuel=4,
+       claims=[(r'return Err\(Error::RdpError\(RdpError::new\(RdpErrorKind::InvalidSize, "[^"]*"\)\)\)', 0, "proof { assert(ser(message.mv()).len() > 65531); }", "before", "C14,C03", "refused-only-above-65531")],
+       **TPKT_WRITE),
     Fn(TPKT, "read_body", impl=r"Client<S>", mod="tpkt", props=["C13"],
        ensures=[("C13", "exact", "r is Ok ==> old(self).rest().len() >= size && r->Ok_0@ == old(self).rest().take(size as int) && final(self).rest() == old(self).rest().skip(size as int)"),
                 ("C13", "frame1", "final(self).written() == old(self).written()"), ("C13", "frame2", "final(self).tls() == old(self).tls()"), ("C13", "frame3", "is_suffix(final(self).rest(), old(self).rest())")]),
